@@ -102,7 +102,8 @@ def main():
         lines.append("| %s | %s | %s | %s | %s | %s / %s | **%s** | %s |" % (
             sid, m["property"], m.get("summary", "").replace("|", "/"), m.get("needs", "").replace("|", "/"),
             "passes" if r.get("baseline_passes") else "FAILS", r.get("demo_on_unchanged"), r.get("demo_with_change"),
-            "caught" if r.get("caught") else "MISSED", "; ".join((r.get("check") or {}).get("keys", [])[:3]).replace("|", "/")))
+            "caught" if r.get("caught") else ("not caught - " + m["not_pursued"] if m.get("not_pursued") else "MISSED"),
+            "; ".join((r.get("check") or {}).get("keys", [])[:3]).replace("|", "/")))
     open(os.path.join(base, "SUMMARY.md"), "w").write("\n".join(lines) + "\n")
 
 
